@@ -597,12 +597,22 @@ func lenEqualsParam(p *load.Program, f *ssa.Function) int {
 			lp := "len(" + ssau.Path(rv) + ")"
 			found := false
 			for fct := range fs {
-				if fct.Kind != "eq" {
-					continue
-				}
 				a, b := stripConv(fct.Path), stripConv(fct.Arg)
-				if (a == lp && b == pp) || (a == pp && b == lp) {
-					found = true
+				switch fct.Kind {
+				case "eq":
+					if (a == lp && b == pp) || (a == pp && b == lp) {
+						found = true
+					}
+				case "ge":
+					// at least that many (the exit of `for len(bs) < n { grow }`): what the callers
+					// rely on is a lower bound of the length
+					if a == lp && b == pp {
+						found = true
+					}
+				case "le":
+					if a == pp && b == lp {
+						found = true
+					}
 				}
 			}
 			if !found {
@@ -788,6 +798,24 @@ func sliceBoundOK(env *intervalEnv, x, b ssa.Value, facts ssau.FactSet) string {
 	}
 	if br.hi.Sign() == 0 {
 		return "bound 0"
+	}
+	// x = append(y, ...) sliced at len(y): append only grows
+	if ac, isC := x.(*ssa.Call); isC {
+		if bi, isB := ac.Call.Value.(*ssa.Builtin); isB && bi.Name() == "append" && len(ac.Call.Args) > 0 {
+			inner := b
+			for {
+				if cv, ok := inner.(*ssa.Convert); ok {
+					inner = cv.X
+					continue
+				}
+				break
+			}
+			if lc, isL := inner.(*ssa.Call); isL {
+				if lb, isLB := lc.Call.Value.(*ssa.Builtin); isLB && lb.Name() == "len" && len(lc.Call.Args) == 1 && lc.Call.Args[0] == ac.Call.Args[0] {
+					return "the bound is the length of the slice this one was appended to"
+				}
+			}
+		}
 	}
 	bp := stripConv(ssau.Path(b))
 	for _, lp := range lenPathsOf(x) {
